@@ -13,7 +13,7 @@ import json
 from .. import core, tablekit as tk, tablerun as tr
 from .C05 import SELS
 
-FORMATS = ["bed6", "bed3", "narrowpeak", "vcf", "sam", "bedgraph", "fastq", "fasta2", "vcfgt"]
+FORMATS = ["bed6", "bed12", "bed3", "narrowpeak", "vcf", "sam", "bedgraph", "fastq", "fasta2", "vcfgt"]
 RULE = ("one case = one program of table operations ending in a write (TLC state of MC_C05) x format x variant (non-canonical "
         "LF / CRLF) x field pair on a lazily read table; non-trivial = the program selects, concatenates or replaces before "
         "writing; distinct by (program, format, variant, pair)")
